@@ -1,24 +1,44 @@
 """Translate every method of the two in-memory graph stores into the control-flow skeleton of
-lean/FimVerif/Model/Lock.lean (`Stmt` over `Micro`) and a line table for the scheduler harness.
+lean/FimVerif/Model/Lock.lean (`Stmt` over `Micro`).
 
 Source read: fim/graph/networkx_property_graph.py            NetworkXGraphStorage.__NetworkXGraphStorage
              fim/graph/networkx_property_graph_disjoint.py   NetworkXGraphStorageDisjoint.__NetworkXGraphStorage
 
-Control flow: Expr/Assign/AugAssign/Return/Raise/If/For/While/Try(except, finally)/With self.lock/Pass.
+Control flow: Expr/Assign/AnnAssign/AugAssign/Return/Raise/If/For/While/Try(except, finally)/With self.lock/Pass.
 Anything else (break, continue, try-else, nested defs, yield, ...) is an ExtractionError.
 
-Shared state = self.graphs, self.start_id, self.graph_node_ids.  A simple statement (or an `if`
-test / `for` iterable / `return` value) that mentions one of them must match one row of ACCESS
-below, which gives its micro-instructions and whether it can raise; no match = ExtractionError.
-A statement that does not mention shared state is thread-local (`loc`) and is assumed able to raise
-unless it is built only from the constructs in `_pure` (names, constants, `is`/comparison/boolean
-operators, `len(<name>)`, assignment of such a value to a local name, `return <name|constant>`).
+The skeleton is taken from a *normalised* form of each method, so that rewrites that do not change what a method does to
+the lock and to the shared state give the same skeleton:
+
+ N1  docstrings, comments, annotations (signature, `x: T = v`) are dropped;
+ N2  `with self.lock: B`  ==  `self.lock.acquire(); try: B finally: self.lock.release()`; an `except` clause that only
+     re-raises what it caught (`except Exception as e: raise e`, bare `raise`) is dropped;
+ N3  a call of a private/static helper of the same class (`self._h(a, b)`, name starts with `_`) is expanded in place, its
+     parameters replaced by the arguments (which must be names / constants / `self.x`); a helper whose body is one
+     `return <expr>` is expanded inside expressions; a helper body that contains `return` becomes `.call <body>` (its
+     return resumes the caller), one that does not is spliced into the caller's sequence.  The no-raise whitelist is applied
+     to the statements of the expanded body exactly as to the caller's own statements;
+ N4  locals are renamed by what they hold: `temp_graph` = the relabelled copy `nx.convert_node_labels_to_integers(...)`,
+     `new_id` = a value read from an id counter, `graph_hits` = the GraphID search over the shared store,
+     `fresh_graph` = `nx.Graph()`; a local of one of these names that holds something else is renamed away;
+     a local that is (or has just been stored as) the store entry `self.graphs[graph_id]` is replaced by that
+     expression wherever something is read from or called on it, so a mutation through the alias is seen as a mutation of
+     the store; `x = nx.Graph(); self.graphs[graph_id] = x` is read as `self.graphs[graph_id] = nx.Graph()`;
+ N5  conditions are classified by what they read: a test that mentions no shared state is thread-local, and cannot raise
+     when it is built from names, constants, `len(<name>)`, comparisons, `not`/`and`/`or` (so `if xs:` and
+     `if xs is not None and len(xs) > 0:` give the same step).
+
+Shared state = self.graphs, self.start_id, self.graph_node_ids.  A simple statement (or an `if` test / `for` iterable /
+`return` value) that mentions one of them must, after normalisation, match one row of ACCESS below, which gives its
+micro-instructions and whether it can raise; no match = ExtractionError.  A statement that does not mention shared state
+is thread-local (`loc`) and is assumed able to raise unless it is pure in the sense of N5 (or assigns such a value to a
+local name / returns a name or constant).
 
 Symbolic parameters in the generated skeletons: counter 0 = `start_id`, counter 1 = `graph_node_ids[graph_id]`;
-graph 1 = the `graph_id` argument; size 1 = one node, size 100 = len(temp_graph) where
-`temp_graph = nx.convert_node_labels_to_integers(graph, ...)`.
+graph 1 = the `graph_id` argument; size 1 = one node, size 100 = len(temp_graph) (Lock.symK), 101 = len(temp_graph)+1.
 """
 import ast
+import copy
 import re
 
 from .common import *
@@ -32,12 +52,13 @@ SHARED_ATTRS = ("graphs", "start_id", "graph_node_ids")
 K = 100          # symbolic size of temp_graph
 SEARCH = r"list\(nxq\.search_nodes\(self\.graphs, \{'eq': \[ABCPropertyGraph\.GRAPH_ID, graph_id\]\}\)\)"
 
-# (flavour, regex on ast.unparse(node) (fullmatch), micros).  A micro ending in "!" can raise (before or after
+# (flavour, regex on ast.unparse(normalised node) (fullmatch), micros).  A micro ending in "!" can raise (before or after
 # taking effect).  The micros WITHOUT "!" are the whitelist of primitives assumed unable to raise for string
 # graph ids (trusted base; keep short):
 #   W1 the GraphID equality search over the store, `return self.graphs`
 #   W2 Graph.remove_nodes_from (ignores absent nodes), Graph.clear, dict.clear
-#   W3 defaultdict.__getitem__ (`x = self.graphs[graph_id]`, `new_id = self.graph_node_ids[graph_id]`)
+#   W3 storing an existing object under the graph id in a dict whose lookup by that id has already succeeded in the same
+#      locked region (`self.graphs[graph_id] = fresh_graph`); a first lookup by graph id CAN raise (unhashable id)
 #   W4 integer increment / assignment of an id counter
 #   W5 the insertion step of Graph.add_node (its argument evaluation can raise, the insertion cannot)
 #   W6 per-graph store only: filling a fresh graph from the node/edge views of
@@ -45,68 +66,85 @@ SEARCH = r"list\(nxq\.search_nodes\(self\.graphs, \{'eq': \[ABCPropertyGraph\.GR
 ACCESS = [
     # ---- shared store ------------------------------------------------------------------------
     ("shared", r"\w+ = " + SEARCH, ["rdg"]),
-    ("shared", r"self\.graphs\.remove_nodes_from\(\w+\)", ["del 1"]),
+    ("shared", r"self\.graphs\.remove_nodes_from\(graph_hits\)", ["del 1"]),
     ("shared", r"self\.graphs\.clear\(\)", ["delAll"]),
     ("shared", r"return self\.graphs", ["rdg"]),
     ("shared", r"return (len|bool)\(self\.graphs\)", ["rdg"]),
     ("disjoint", r"return (len|bool)\(self\.graphs\)", ["rdg"]),
     ("shared", r"temp_graph = nx\.convert_node_labels_to_integers\(graph, first_label=self\.start_id\)", ["read 0!"]),
-    ("shared", r"self\.start_id = self\.start_id \+ len\(temp_graph\.nodes\(\)\)", ["bump 0 %d!" % K]),
-    ("shared", r"self\.start_id \+= len\(temp_graph\.nodes\(\)\)", ["bump 0 %d!" % K]),
+    ("shared", r"self\.start_id = self\.start_id \+ len\(temp_graph(\.nodes(\(\))?)?\)", ["bump 0 %d!" % K]),
+    ("shared", r"self\.start_id \+= len\(temp_graph(\.nodes(\(\))?)?\)", ["bump 0 %d!" % K]),
     ("shared", r"self\.start_id = self\.start_id \+ 1", ["bump 0 1"]),
     ("shared", r"self\.start_id \+= 1", ["bump 0 1"]),
+    ("shared", r"self\.start_id = new_id \+ 1", ["bumpReg 0 1"]),
     ("shared", r"self\.graphs\.add_nodes_from\(temp_graph\.nodes\(data=True\)\)", ["add 0 1 %d!" % K]),
     ("shared", r"self\.graphs\.add_edges_from\(temp_graph\.edges\(data=True\)\)", ["rdg!"]),
     ("shared", r"self\.graphs\.add_node\(self\.start_id, GraphID=graph_id, \*\*attrs\)", ["read 0!", "add 0 1 1"]),
+    ("shared", r"self\.graphs\.add_node\(new_id, GraphID=graph_id, \*\*attrs\)", ["loc!", "add 0 1 1"]),
     ("shared", r"return self\.start_id - 1", ["read 0!"]),
-    ("shared", r"\w+ = self\.start_id", ["read 0"]),
+    ("shared", r"new_id = self\.start_id", ["read 0"]),
     ("shared", r"\w+ = nx\.to_dict_of_dicts\(self\.graphs, \w+\)", ["rdg!"]),
-    ("shared", r"ret\.nodes\[n\]\.update\(self\.graphs\.nodes\[n\]\)", ["rdg!"]),
+    ("shared", r"\w+\.nodes\[(\w+)\]\.update\(self\.graphs\.nodes\[\1\]\)", ["rdg!"]),
     # ---- per-graph (disjoint) store ------------------------------------------------------------
-    ("disjoint", r"graph_id in self\.graphs\.keys\(\)( and len\(self\.graphs\[graph_id\]\.nodes\) > 0)?", ["rdg!"]),
-    ("disjoint", r"len\(self\.graphs\[graph_id\]\.nodes\) > 0", ["rdg!"]),
+    ("disjoint", r"graph_id in self\.graphs(\.keys\(\))?( and len\(self\.graphs\[graph_id\](\.nodes(\(\))?)?\) > 0)?", ["rdg!"]),
+    ("disjoint", r"len\(self\.graphs\[graph_id\](\.nodes(\(\))?)?\) > 0", ["rdg!"]),
     ("disjoint", r"self\.graphs\[graph_id\]\.clear\(\)", ["delSpace 1"]),
     ("disjoint", r"self\.graphs\.clear\(\)", ["delAll"]),
     ("disjoint", r"self\.graphs\[graph_id\] = nx\.Graph\(\)", ["delSpace 1!"]),
+    ("disjoint", r"self\.graphs\[graph_id\] = fresh_graph", ["delSpace 1"]),
     ("disjoint", r"self\.graphs\[graph_id\]\.add_nodes_from\(temp_graph\.nodes\(data=True\)\)", ["addFrom 1 1 1 %d" % K]),
     ("disjoint", r"self\.graphs\[graph_id\]\.add_edges_from\(temp_graph\.edges\(data=True\)\)", ["rdg"]),
     ("disjoint", r"self\.graphs\[graph_id\] = temp_graph", ["delSpace 1", "addFrom 1 1 1 %d" % K]),
-    ("disjoint", r"self\.graph_node_ids\[graph_id\] = len\(self\.graphs\[graph_id\]\.nodes\(\)\) \+ 1", ["setCtr 1 %d" % (K + 1)]),
-    ("disjoint", r"\w+ = self\.graphs\[graph_id\]", ["rdg"]),
-    ("disjoint", r"new_id = self\.graph_node_ids\[graph_id\]", ["read 1"]),
+    ("disjoint", r"self\.graph_node_ids\[graph_id\] = len\(self\.graphs\[graph_id\](\.nodes(\(\))?)?\) \+ 1", ["setCtr 1 %d" % (K + 1)]),
+    ("disjoint", r"\w+ = self\.graphs\[graph_id\]", ["rdg!"]),
+    ("disjoint", r"return self\.graphs\[graph_id\]", ["rdg!"]),
+    ("disjoint", r"return self\.graphs\[graph_id\]\.copy\(\)", ["rdg!"]),
+    ("disjoint", r"new_id = self\.graph_node_ids\[graph_id\]", ["read 1!"]),
     ("disjoint", r"self\.graph_node_ids\[graph_id\] \+= 1", ["bump 1 1"]),
     ("disjoint", r"self\.graph_node_ids\[graph_id\] = self\.graph_node_ids\[graph_id\] \+ 1", ["bump 1 1"]),
+    ("disjoint", r"self\.graph_node_ids\[graph_id\] = new_id \+ 1", ["bumpReg 1 1"]),
     ("disjoint", r"self\.graphs\[graph_id\]\.add_node\(new_id, GraphID=graph_id, \*\*attrs\)", ["add 1 1 1!"]),
 ]
 # what `temp_graph` must be for the size/base symbols above to mean what they say
 TEMP_GRAPH = {
-    "shared": r"temp_graph = nx\.convert_node_labels_to_integers\(graph, first_label=self\.start_id\)",
-    "disjoint": r"temp_graph = nx\.convert_node_labels_to_integers\(graph, 1\)",
+    "shared": r"nx\.convert_node_labels_to_integers\(graph, first_label=self\.start_id\)",
+    "disjoint": r"nx\.convert_node_labels_to_integers\(graph, (first_label=)?1\)",
 }
+# N4: canonical local names by defining expression (regex on the unparsed, normalised value)
+CANON = [
+    ("temp_graph", r"nx\.convert_node_labels_to_integers\(.*\)"),
+    ("new_id", r"self\.start_id|self\.graph_node_ids\[graph_id\]"),
+    ("graph_hits", SEARCH),
+    ("fresh_graph", r"nx\.Graph\(\)"),
+]
+CANON_NAMES = {c for c, _ in CANON}
+ENTRY = "self.graphs[graph_id]"
+
+
+def _self_attr(n, names):
+    return isinstance(n, ast.Attribute) and isinstance(n.value, ast.Name) and n.value.id == "self" and n.attr in names
 
 
 def _mentions_shared(node):
-    for n in ast.walk(node):
-        if isinstance(n, ast.Attribute) and isinstance(n.value, ast.Name) and n.value.id == "self" and n.attr in SHARED_ATTRS:
-            return True
-    return False
+    return any(_self_attr(n, SHARED_ATTRS) for n in ast.walk(node))
 
 
 def _mentions_lock(node):
-    for n in ast.walk(node):
-        if isinstance(n, ast.Attribute) and isinstance(n.value, ast.Name) and n.value.id == "self" and n.attr == "lock":
-            return True
-    return False
+    return any(_self_attr(n, ("lock",)) for n in ast.walk(node))
 
 
 def _lock_call(st):
     """'acq' / 'rel' for the statement `self.lock.acquire()` / `self.lock.release()`."""
     if isinstance(st, ast.Expr) and isinstance(st.value, ast.Call) and not st.value.args and not st.value.keywords:
         f = st.value.func
-        if isinstance(f, ast.Attribute) and f.attr in ("acquire", "release") and isinstance(f.value, ast.Attribute) \
-                and f.value.attr == "lock" and isinstance(f.value.value, ast.Name) and f.value.value.id == "self":
+        if isinstance(f, ast.Attribute) and f.attr in ("acquire", "release") and _self_attr(f.value, ("lock",)):
             return "acq" if f.attr == "acquire" else "rel"
     return None
+
+
+def _takes_lock(fn):
+    return any(_lock_call(s) or (isinstance(s, ast.With) and any(_mentions_lock(i.context_expr) for i in s.items))
+               for s in ast.walk(fn))
 
 
 def _pure(e):
@@ -125,9 +163,7 @@ def _pure(e):
 
 
 def _pure_cmp_operand(e):
-    if isinstance(e, ast.Constant):
-        return True
-    if isinstance(e, ast.Name):
+    if isinstance(e, (ast.Constant, ast.Name)):
         return True
     if isinstance(e, ast.Call) and isinstance(e.func, ast.Name) and e.func.id == "len" and len(e.args) == 1 \
             and isinstance(e.args[0], ast.Name) and not e.keywords:
@@ -135,18 +171,126 @@ def _pure_cmp_operand(e):
     return False
 
 
+def _simple_arg(e):
+    return isinstance(e, (ast.Name, ast.Constant)) or (isinstance(e, ast.Attribute) and isinstance(e.value, ast.Name))
+
+
+def _is_private(name):
+    return name.startswith("_") and not (name.startswith("__") and name.endswith("__"))
+
+
+def _assigned_names(stmts):
+    out = set()
+    for st in stmts:
+        for n in ast.walk(st):
+            if isinstance(n, ast.Name) and isinstance(n.ctx, (ast.Store, ast.Del)):
+                out.add(n.id)
+    return out
+
+
+class Env:
+    """N4: what the locals of one activation stand for.
+    full: name -> expression that replaces every load of the name (renames, parameter binding)
+    recv: name -> expression of the shared object the name is an alias of (replaces the name where something is read from
+          it or called on it; a bare `return x` / `y = x` only passes the reference on)"""
+
+    def __init__(self, full=None, recv=None):
+        self.full = dict(full or {})
+        self.recv = dict(recv or {})
+
+    def copy(self):
+        return Env(self.full, self.recv)
+
+    def kill(self, names):
+        for n in names:
+            self.full.pop(n, None)
+            self.recv.pop(n, None)
+
+    def canon_of(self, name):
+        e = self.full.get(name)
+        return e.id if isinstance(e, ast.Name) else name
+
+
+class _Subst(ast.NodeTransformer):
+    def __init__(self, tr, env):
+        self.tr, self.env = tr, env
+
+    def visit_Name(self, n):
+        if not isinstance(n.ctx, ast.Load):
+            return n
+        if n.id in self.env.full:
+            return copy.deepcopy(self.env.full[n.id])
+        if n.id in self.env.recv:
+            return copy.deepcopy(self.env.recv[n.id])
+        return n
+
+    def visit_Call(self, n):
+        n = self.generic_visit(n)
+        return self.tr.inline_expr(n)
+
+
 class Tr:
     def __init__(self, flavour, src, cls):
         self.flavour = flavour
         self.src = src
         self.cls = cls
-        self.helpers = {}       # mangled-name suffix -> FunctionDef
-        self.lines = {}         # lineno -> [micro strings]
+        self.helpers = {}       # name -> FunctionDef (private / static helpers of the class)
         self.rows_used = set()
         self.cache = {}
+        self.depth = 0
         for fn in cls.body:
-            if isinstance(fn, ast.FunctionDef) and fn.name.startswith("__") and not fn.name.endswith("__"):
+            if isinstance(fn, ast.FunctionDef) and _is_private(fn.name):
                 self.helpers[fn.name] = fn
+
+    # -- N3: helpers -------------------------------------------------------------------------
+    def helper_of(self, e):
+        """FunctionDef when `e` is `self.<helper>(...)` (name-mangled or not)"""
+        if isinstance(e, ast.Call) and isinstance(e.func, ast.Attribute) and isinstance(e.func.value, ast.Name) \
+                and e.func.value.id == "self" and e.func.attr in self.helpers:
+            return self.helpers[e.func.attr]
+        return None
+
+    def bind(self, fn, call):
+        """Env of a helper activation: parameter -> argument"""
+        deco = [ast.unparse(d) for d in fn.decorator_list]
+        if deco not in ([], ["staticmethod"]):
+            raise ExtractionError("helper %s: unsupported decorator %s" % (fn.name, deco))
+        a = fn.args
+        if a.vararg or a.kwarg or a.kwonlyargs or a.posonlyargs:
+            raise ExtractionError("helper %s: unsupported parameter kinds" % fn.name)
+        params = [p.arg for p in a.args]
+        if deco == []:
+            if not params or params[0] != "self":
+                raise ExtractionError("helper %s: first parameter is not self" % fn.name)
+            params = params[1:]
+        defaults = dict(zip(params[len(params) - len(a.defaults):], a.defaults)) if a.defaults else {}
+        given = dict(zip(params, call.args))
+        if len(call.args) > len(params):
+            raise ExtractionError("helper %s: too many arguments" % fn.name)
+        for kw in call.keywords:
+            if kw.arg is None or kw.arg not in params or kw.arg in given:
+                raise ExtractionError("helper %s: unrecognised keyword argument" % fn.name)
+            given[kw.arg] = kw.value
+        full = {}
+        for p in params:
+            v = given.get(p, defaults.get(p))
+            if v is None:
+                raise ExtractionError("helper %s: parameter %s not bound" % (fn.name, p))
+            if not _simple_arg(v):
+                raise ExtractionError("helper %s called with a compound argument: %s" % (fn.name, ast.unparse(v)))
+            full[p] = v
+        return Env(full)
+
+    def inline_expr(self, call):
+        """a helper whose body is one `return <expr>`: the call is that expression"""
+        fn = self.helper_of(call)
+        if fn is None:
+            return call
+        body = strip_doc(fn.body)
+        if len(body) == 1 and isinstance(body[0], ast.Return) and body[0].value is not None:
+            env = self.bind(fn, call)
+            return _Subst(self, env).visit(copy.deepcopy(body[0].value))
+        return call
 
     # -- leaf classification ---------------------------------------------------------------
     def access(self, node, what):
@@ -155,28 +299,69 @@ class Tr:
         for i, (fl, rx, micros) in enumerate(ACCESS):
             if fl == self.flavour and re.fullmatch(rx, text):
                 self.rows_used.add(i)
-                if micros and getattr(node, "end_lineno", node.lineno) != node.lineno:
-                    raise ExtractionError("%s: shared access spans several lines: %s" % (what, text))
                 return micros
         raise ExtractionError("%s store, %s: unrecognised access to shared state: %s" % (self.flavour, what, text))
 
-    def leaf(self, node, what, value_pure=None):
+    def reads_graphs_only(self, e):
+        """N5: a condition that only looks at the graph container (membership, sizes): one read of the graph structure"""
+        ok = (ast.BoolOp, ast.And, ast.Or, ast.UnaryOp, ast.Not, ast.Compare, ast.In, ast.NotIn, ast.Is, ast.IsNot, ast.Eq,
+              ast.NotEq, ast.Gt, ast.GtE, ast.Lt, ast.LtE, ast.Name, ast.Constant, ast.Load, ast.Subscript, ast.Attribute, ast.Call)
+        for n in ast.walk(e):
+            if not isinstance(n, ok):
+                return False
+            if isinstance(n, ast.Call):
+                f = n.func
+                if n.keywords or not ((isinstance(f, ast.Name) and f.id == "len" and len(n.args) == 1) or
+                                      (isinstance(f, ast.Attribute) and f.attr in ("keys", "nodes") and not n.args)):
+                    return False
+            if isinstance(n, ast.Attribute) and isinstance(n.value, ast.Name) and n.value.id == "self" and n.attr != "graphs":
+                return False
+        return True
+
+    def leaf(self, node, what, value_pure=None, test=False):
         """Stmt text for one evaluation step (statement or control expression)."""
         if _mentions_lock(node):
             raise ExtractionError("%s: unrecognised use of self.lock: %s" % (what, ast.unparse(node)))
+        for n in ast.walk(node):
+            if self.helper_of(n) is not None:
+                raise ExtractionError("%s: helper call in an unsupported position: %s" % (what, ast.unparse(node)))
         if _mentions_shared(node):
-            micros = self.access(node, what)
-            self.lines.setdefault(node.lineno, []).extend(m.rstrip("!") for m in micros)
+            if test and self.reads_graphs_only(node):
+                micros = ["rdg!"]
+            else:
+                micros = self.access(node, what)
             return ["(.prim (.%s) %s)" % (m.rstrip("!"), "true" if m.endswith("!") else "false") for m in micros]
         pure = value_pure if value_pure is not None else False
         return ["(.prim .loc %s)" % ("false" if pure else "true")]
 
     # -- statements ----------------------------------------------------------------------
-    def block(self, stmts, what):
+    def block(self, stmts, what, env):
         parts = []
-        for st in stmts:
-            parts.extend(self.stmt(st, what))
+        stmts = list(stmts)
+        i = 0
+        while i < len(stmts):
+            st = stmts[i]
+            # N4 peephole: `x = nx.Graph()` immediately stored as the entry  ==  `self.graphs[graph_id] = nx.Graph()`
+            if i + 1 < len(stmts) and self._fresh_then_store(st, stmts[i + 1], env):
+                merged = copy.deepcopy(stmts[i + 1])
+                merged.value = copy.deepcopy(st.value)
+                parts.extend(self.stmt(merged, what, env))
+                env.kill([st.targets[0].id])
+                env.recv[st.targets[0].id] = ast.parse(ENTRY, mode="eval").body
+                i += 2
+                continue
+            parts.extend(self.stmt(st, what, env))
+            i += 1
         return parts
+
+    def _fresh_then_store(self, a, b, env):
+        if not (isinstance(a, ast.Assign) and len(a.targets) == 1 and isinstance(a.targets[0], ast.Name)
+                and ast.unparse(a.value) == "nx.Graph()"):
+            return False
+        if not (isinstance(b, ast.Assign) and len(b.targets) == 1 and isinstance(b.value, ast.Name)
+                and b.value.id == a.targets[0].id):
+            return False
+        return ast.unparse(_Subst(self, env).visit(copy.deepcopy(b.targets[0]))) == ENTRY
 
     @staticmethod
     def seq(parts):
@@ -187,93 +372,214 @@ class Tr:
             out = "(.seq %s %s)" % (p, out)
         return out
 
-    def stmt(self, st, what):
+    def sub(self, node, env):
+        return ast.fix_missing_locations(_Subst(self, env).visit(copy.deepcopy(node)))
+
+    @staticmethod
+    def bare_alias(e, env):
+        """`e` is just the name of an alias of a shared object: passing the reference on reads nothing"""
+        return isinstance(e, ast.Name) and e.id in env.recv and e.id not in env.full
+
+    def branch(self, stmts, what, env):
+        """a nested block: bindings made inside are not trusted after it"""
+        inner = env.copy()
+        parts = self.block(stmts, what, inner)
+        env.kill(_assigned_names(stmts))
+        return parts
+
+    def expand_call(self, call, what, env):
+        """N3: statement-level helper call -> (parts, canonical name of the returned local or None)"""
+        fn = self.helper_of(call)
+        self.depth += 1
+        if self.depth > 6:
+            raise ExtractionError("%s: helper calls nested too deeply (recursion?)" % what)
+        try:
+            call = copy.deepcopy(call)
+            call.args = [self.sub(a, env) for a in call.args]
+            for kw in call.keywords:
+                kw.value = self.sub(kw.value, env)
+            henv = self.bind(fn, call)
+            self.check_constructs(fn, "%s>%s" % (what, fn.name))
+            body = strip_doc(fn.body)
+            parts = self.block(body, "%s>%s" % (what, fn.name), henv)
+            rets = [n for st in body for n in ast.walk(st) if isinstance(n, ast.Return)]
+            ret_name = None
+            if rets:
+                vals = {ast.unparse(self.sub(r.value, henv)) if r.value is not None else "None" for r in rets}
+                # (the environment at the end of the body: good enough for `return <local>` of a straight-line helper)
+                if len(vals) == 1 and isinstance(rets[0].value, ast.Name):
+                    ret_name = henv.canon_of(rets[0].value.id)
+                    if ret_name not in CANON_NAMES:
+                        ret_name = None
+                return ["(.call %s)" % self.seq(parts)], ret_name
+            return parts, None
+        finally:
+            self.depth -= 1
+
+    def stmt(self, st, what, env):
         lk = _lock_call(st)
         if lk:
             return ["(.prim .%s false)" % lk]
         if isinstance(st, ast.Pass):
             return []
+        if isinstance(st, ast.AnnAssign):
+            if st.value is None:
+                return []
+            st = ast.copy_location(ast.Assign(targets=[st.target], value=st.value), st)
         if isinstance(st, ast.Expr):
             if isinstance(st.value, ast.Constant):
                 return []
-            h = self.helper_call(st.value)
-            if h:
-                return ["(.call %s)" % self.method(self.helpers[h], "%s>%s" % (what, h))]
-            return self.leaf(st, what)
+            if self.helper_of(st.value) is not None:
+                return self.expand_call(st.value, what, env)[0]
+            return self.leaf(self.sub(st, env), what)
         if isinstance(st, ast.Assign):
-            if len(st.targets) == 1 and isinstance(st.targets[0], ast.Name) and re.fullmatch(r"temp_graph", st.targets[0].id) \
-                    and not re.fullmatch(TEMP_GRAPH[self.flavour], ast.unparse(st)):
-                raise ExtractionError("%s: temp_graph is not built the way the size symbols assume: %s" % (what, ast.unparse(st)))
-            pure = len(st.targets) == 1 and isinstance(st.targets[0], ast.Name) and _pure(st.value)
-            return self.leaf(st, what, value_pure=pure)
+            return self.assign(st, what, env)
         if isinstance(st, ast.AugAssign):
-            return self.leaf(st, what)
+            out = self.leaf(self.sub(st, env), what)
+            env.kill(_assigned_names([st]))
+            return out
         if isinstance(st, ast.Return):
-            if st.value is not None and _mentions_shared(st.value):
-                return self.leaf(st, what) + [".ret"]
-            if _pure(st.value):
+            if st.value is not None and self.helper_of(st.value) is not None and self.inline_expr(st.value) is st.value:
+                parts, _ = self.expand_call(st.value, what, env)
+                return parts + [".ret"]
+            if self.bare_alias(st.value, env):
                 return [".ret"]
-            return ["(.prim .loc true)", ".ret"]
+            s2 = self.sub(st, env)
+            if s2.value is not None and _mentions_shared(s2.value):
+                return self.leaf(s2, what) + [".ret"]
+            if _pure(s2.value):
+                return [".ret"]
+            return self.leaf(s2, what) + [".ret"]
         if isinstance(st, ast.Raise):
-            if _mentions_shared(st) or _mentions_lock(st):
+            s2 = self.sub(st, env)
+            if _mentions_shared(s2) or _mentions_lock(s2):
                 raise ExtractionError("%s: raise mentions shared state" % what)
             return [".raise"]
         if isinstance(st, ast.If):
-            test = self.leaf(st.test, what, value_pure=_pure(st.test))
-            return test + ["(.ite %s %s)" % (self.seq(self.block(st.body, what)), self.seq(self.block(st.orelse, what)))]
+            t = self.sub(st.test, env)
+            test = self.leaf(t, what, value_pure=_pure(t), test=True)
+            a = self.branch(st.body, what, env)
+            b = self.branch(st.orelse, what, env)
+            return test + ["(.ite %s %s)" % (self.seq(a), self.seq(b))]
         if isinstance(st, ast.For):
             if st.orelse:
                 raise ExtractionError("%s: for-else" % what)
-            it = self.leaf(st.iter, what, value_pure=_pure(st.iter))
+            itx = self.sub(st.iter, env)
+            it = self.leaf(itx, what, value_pure=_pure(itx))
+            env.kill(_assigned_names([st.target]))
             # each iteration: fetch the next element (can raise unless the iterable is a plain name), bind, run the body
-            nxt = "(.prim .loc %s)" % ("false" if isinstance(st.iter, ast.Name) else "true")
-            return it + ["(.loop %s)" % self.seq([nxt] + self.block(st.body, what))]
+            nxt = "(.prim .loc %s)" % ("false" if isinstance(itx, ast.Name) else "true")
+            env.kill(_assigned_names(st.body))          # a binding changed by the body is unknown from the 2nd iteration on
+            return it + ["(.loop %s)" % self.seq([nxt] + self.branch(st.body, what, env))]
         if isinstance(st, ast.While):
             if st.orelse:
                 raise ExtractionError("%s: while-else" % what)
-            test = self.leaf(st.test, what, value_pure=_pure(st.test))
-            return ["(.loop %s)" % self.seq(test + self.block(st.body, what))] + test
+            env.kill(_assigned_names(st.body))
+            t = self.sub(st.test, env)
+            test = self.leaf(t, what, value_pure=_pure(t), test=True)
+            return ["(.loop %s)" % self.seq(test + self.branch(st.body, what, env))] + test
         if isinstance(st, ast.Try):
             if st.orelse:
                 raise ExtractionError("%s: try-else" % what)
-            body = self.seq(self.block(st.body, what))
-            if st.handlers:
+            killed = _assigned_names(st.body)
+            body = self.seq(self.block(st.body, what, env))
+            handlers = [hd for hd in st.handlers if not self._reraise_only(hd)]      # N2
+            if handlers:
                 # an exception enters the first handler whose class matches; a handler for anything narrower than
                 # Exception may be skipped, so the exception may also propagate
+                env.kill(killed)
                 h = ".raise"
-                for hd in reversed(st.handlers):
-                    hb = self.seq(self.block(hd.body, what))
+                for hd in reversed(handlers):
+                    hb = self.seq(self.branch(hd.body, what, env))
                     catch_all = hd.type is None or (isinstance(hd.type, ast.Name) and hd.type.id in ("Exception", "BaseException"))
                     h = hb if catch_all else "(.ite %s %s)" % (hb, h)
                 body = "(.tryExcept %s %s)" % (body, h)
             if st.finalbody:
-                body = "(.tryFinally %s %s)" % (body, self.seq(self.block(st.finalbody, what)))
+                fenv = env.copy()
+                fenv.kill(killed)
+                body = "(.tryFinally %s %s)" % (body, self.seq(self.block(st.finalbody, what, fenv)))
+                env.kill(_assigned_names(st.finalbody))
             return [body]
         if isinstance(st, ast.With):
             if len(st.items) == 1 and ast.unparse(st.items[0].context_expr) == "self.lock" and st.items[0].optional_vars is None:
-                return ["(.prim .acq false)", "(.tryFinally %s (.prim .rel false))" % self.seq(self.block(st.body, what))]
+                return ["(.prim .acq false)", "(.tryFinally %s (.prim .rel false))" % self.seq(self.block(st.body, what, env))]
             raise ExtractionError("%s: unrecognised with-statement" % what)
         raise ExtractionError("%s: unrecognised statement %s" % (what, type(st).__name__))
 
-    def helper_call(self, e):
-        if isinstance(e, ast.Call) and isinstance(e.func, ast.Attribute) and isinstance(e.func.value, ast.Name) \
-                and e.func.value.id == "self" and e.func.attr in self.helpers:
-            if [ast.unparse(a) for a in e.args] != ["graph_id"] or e.keywords:
-                raise ExtractionError("helper %s called with something else than graph_id" % e.func.attr)
-            return e.func.attr
-        return None
+    @staticmethod
+    def _reraise_only(hd):
+        if len(hd.body) != 1 or not isinstance(hd.body[0], ast.Raise) or hd.body[0].cause is not None:
+            return False
+        exc = hd.body[0].exc
+        return exc is None or (hd.name is not None and isinstance(exc, ast.Name) and exc.id == hd.name)
 
-    def method(self, fn, what):
-        if fn.name not in self.cache:
-            self.cache[fn.name] = self._method(fn, "%s.%s" % (self.flavour, fn.name))
-        return self.cache[fn.name]
+    def assign(self, st, what, env):
+        single = len(st.targets) == 1 and isinstance(st.targets[0], ast.Name)
+        if not single:
+            s2 = self.sub(st, env)
+            # storing a local object as the store entry: the local is the entry from now on
+            out = self.leaf(s2, what)
+            if len(st.targets) == 1 and ast.unparse(s2.targets[0]) == ENTRY and isinstance(s2.value, ast.Name):
+                cname = s2.value.id
+                names = {cname} | {k for k, v in env.full.items() if isinstance(v, ast.Name) and v.id == cname}
+                if isinstance(st.value, ast.Name):
+                    names.add(st.value.id)
+                for name in names:
+                    env.full.pop(name, None)
+                    env.recv[name] = ast.parse(ENTRY, mode="eval").body
+            env.kill(_assigned_names([st]))
+            return out
+        name = st.targets[0].id
+        pre = []
+        value = st.value
+        ret_name = None
+        if self.helper_of(value) is not None and self.inline_expr(value) is value:
+            # helper with a real body on the right-hand side: run it, then bind its result
+            pre, ret_name = self.expand_call(value, what, env)
+            env.kill([name])
+            if ret_name:
+                env.full[name] = ast.Name(id=ret_name, ctx=ast.Load())
+            elif name in CANON_NAMES:
+                env.full[name] = ast.Name(id=name + "__local", ctx=ast.Load())
+            return pre
+        if self.bare_alias(value, env):
+            alias = env.recv[value.id]
+            env.kill([name])
+            env.recv[name] = alias                           # y = x where x is an alias: y is one too
+            if name in CANON_NAMES:
+                raise ExtractionError("%s: alias of a shared object stored under the reserved name %s" % (what, name))
+            return ["(.prim .loc false)"]
+        v2 = self.sub(value, env)
+        text = ast.unparse(v2)
+        env.kill([name])
+        canon = next((c for c, rx in CANON if re.fullmatch(rx, text)), None)
+        target = name
+        if canon:
+            if canon == "temp_graph" and not re.fullmatch(TEMP_GRAPH[self.flavour], text):
+                raise ExtractionError("%s: temp_graph is not built the way the size symbols assume: %s" % (what, text))
+            target = canon
+            if name != canon:
+                env.full[name] = ast.Name(id=canon, ctx=ast.Load())
+        elif name in CANON_NAMES:
+            target = name + "__local"
+            env.full[name] = ast.Name(id=target, ctx=ast.Load())
+        if text == ENTRY and self.flavour == "disjoint":
+            env.recv[name] = ast.parse(ENTRY, mode="eval").body
+        s2 = ast.copy_location(ast.Assign(targets=[ast.Name(id=target, ctx=ast.Store())], value=v2), st)
+        ast.fix_missing_locations(s2)
+        return self.leaf(s2, what, value_pure=_pure(v2))
 
-    def _method(self, fn, what):
+    def check_constructs(self, fn, what):
         for n in ast.walk(fn):
             if isinstance(n, (ast.Break, ast.Continue, ast.Yield, ast.YieldFrom, ast.Await, ast.Lambda, ast.Global, ast.Nonlocal)) \
                     or (n is not fn and isinstance(n, (ast.FunctionDef, ast.ClassDef, ast.AsyncFunctionDef))):
                 raise ExtractionError("%s: unsupported construct %s" % (what, type(n).__name__))
-        return self.seq(self.block(strip_doc(fn.body), what))
+
+    def method(self, fn, what):
+        if fn.name not in self.cache:
+            self.check_constructs(fn, what)
+            self.cache[fn.name] = self.seq(self.block(strip_doc(fn.body), what, Env()))
+        return self.cache[fn.name]
 
 
 def _check_init(flavour, cls):
@@ -300,6 +606,8 @@ def _singleton(flavour, tree, oc, cls):
     outer = oc.name
     members = {}
     for n in oc.body:
+        if isinstance(n, ast.AnnAssign) and isinstance(n.target, ast.Name) and n.value is not None:
+            n = ast.copy_location(ast.Assign(targets=[n.target], value=n.value), n)
         if isinstance(n, ast.Assign) and len(n.targets) == 1 and isinstance(n.targets[0], ast.Name):
             members[n.targets[0].id] = n
         elif isinstance(n, ast.FunctionDef):
@@ -327,7 +635,7 @@ def _singleton(flavour, tree, oc, cls):
     for n in ast.walk(tree):
         if isinstance(n, ast.Attribute) and n.attr == "storage_instance" and isinstance(n.ctx, (ast.Store, ast.Del)) \
                 and n is not body[0].body[0].targets[0]:
-            raise ExtractionError("%s: storage_instance is assigned outside the creation guard (line %d)" % (rel_of(tree), n.lineno))
+            raise ExtractionError("module: storage_instance is assigned outside the creation guard (line %d)" % n.lineno)
     for fn in cls.body:
         if isinstance(fn, ast.FunctionDef) and fn.name != "__init__":
             for n in ast.walk(fn):
@@ -336,6 +644,8 @@ def _singleton(flavour, tree, oc, cls):
                         raise ExtractionError("%s store, %s: the lock object is replaced" % (flavour, fn.name))
                     if n.attr in ("__init__", "__dict__", "__class__"):
                         raise ExtractionError("%s store, %s: re-initialises / rewires the store object" % (flavour, fn.name))
+                if isinstance(n, ast.Call) and isinstance(n.func, ast.Name) and n.func.id in ("setattr", "delattr", "vars"):
+                    raise ExtractionError("%s store, %s: rewires the store object through %s()" % (flavour, fn.name, n.func.id))
     if cls.bases or cls.keywords:
         raise ExtractionError("%s store class has base classes: truthiness cannot be read off the class body" % flavour)
     falsy = any(isinstance(fn, ast.FunctionDef) and fn.name in ("__len__", "__bool__") for fn in cls.body) or \
@@ -344,26 +654,26 @@ def _singleton(flavour, tree, oc, cls):
             "guard_line": body[0].lineno, "first": oc.lineno, "last": oc.end_lineno}
 
 
-def rel_of(tree):
-    return "module"
+def _classes(flavour):
+    rel, outer = FILES[flavour]
+    tree, src = parse(rel)
+    oc = find_class(tree, outer)
+    inner = [n for n in oc.body if isinstance(n, ast.ClassDef) and n.name == INNER]
+    if len(inner) != 1:
+        raise ExtractionError("%s: inner class %s not found" % (outer, INNER))
+    return rel, tree, src, oc, inner[0]
 
 
 def extract():
-    """-> (methods: [(name, kind, stmt_text)], lines: {flavour: {lineno: [micro]}}, ranges, report)"""
-    methods, lines, ranges, spans = [], {}, {}, {}
-    for flavour, (rel, outer) in FILES.items():
-        tree, src = parse(rel)
-        oc = find_class(tree, outer)
-        inner = [n for n in oc.body if isinstance(n, ast.ClassDef) and n.name == INNER]
-        if len(inner) != 1:
-            raise ExtractionError("%s: inner class %s not found" % (outer, INNER))
-        cls = inner[0]
+    """-> (methods: [(name, kind, stmt_text)], ranges, spans)"""
+    methods, ranges, spans = [], {}, {}
+    for flavour in FILES:
+        rel, tree, src, oc, cls = _classes(flavour)
         _check_init(flavour, cls)
         tr = Tr(flavour, src, cls)
         sg = _singleton(flavour, tree, oc, cls)
         ranges[flavour] = {"file": rel, "first": cls.lineno, "last": cls.end_lineno, "methods": {},
                            "shell": [oc.lineno, oc.end_lineno], "singleton": sg}
-        tr.lines.setdefault(sg["guard_line"], []).append("ctor %s" % ("true" if sg["weak"] else "false"))
         for fn in cls.body:
             if isinstance(fn, ast.Expr) and isinstance(fn.value, ast.Constant):
                 continue
@@ -376,30 +686,27 @@ def extract():
             if fn.name in tr.helpers:
                 kind = "helper"
             else:
-                kind = "locking" if any(_lock_call(s) or isinstance(s, ast.With) for s in ast.walk(fn)) else "lockfree"
+                kind = "locking" if _takes_lock(fn) else "lockfree"
             methods.append(("%s.%s" % (flavour, fn.name), kind, text))
-        lines[flavour] = {str(k): v for k, v in sorted(tr.lines.items())}
         spans[flavour] = span_hash(src, cls)
-    return methods, lines, ranges, spans
+    return methods, ranges, spans
 
 
-def ranges_only():
-    """Line ranges of the two storage classes without any interpretation of their statements: what the scheduler
-    needs to keep running the property oracle when `extract` no longer recognises the source."""
+def layout():
+    """Where the two storage classes are and which of their methods take the lock - no interpretation of the statements,
+    so this keeps working on source the translator does not recognise (the scheduler harness needs nothing else)."""
     ranges, methods = {}, {}
-    for flavour, (rel, outer) in FILES.items():
-        tree, src = parse(rel)
-        oc = find_class(tree, outer)
-        cls = [n for n in oc.body if isinstance(n, ast.ClassDef) and n.name == INNER][0]
+    for flavour in FILES:
+        rel, tree, src, oc, cls = _classes(flavour)
         ranges[flavour] = {"file": rel, "first": cls.lineno, "last": cls.end_lineno, "methods": {},
                            "shell": [oc.lineno, oc.end_lineno]}
         for fn in cls.body:
             if isinstance(fn, ast.FunctionDef):
                 ranges[flavour]["methods"][fn.name] = [fn.lineno, fn.end_lineno]
-                if fn.name != "__init__" and not (fn.name.startswith("__")):
-                    takes = any(_lock_call(s) or isinstance(s, ast.With) for s in ast.walk(fn))
-                    methods["%s.%s" % (flavour, fn.name)] = "locking" if takes else "lockfree"
-    return {"lines": {"shared": {}, "disjoint": {}}, "ranges": ranges, "methods": methods, "degraded": True}
+                if fn.name != "__init__":
+                    kind = "helper" if _is_private(fn.name) else ("locking" if _takes_lock(fn) else "lockfree")
+                    methods["%s.%s" % (flavour, fn.name)] = kind
+    return {"ranges": ranges, "methods": methods}
 
 
 def lean_name(n):
@@ -407,7 +714,7 @@ def lean_name(n):
 
 
 def generate():
-    methods, lines, ranges, spans = extract()
+    methods, ranges, spans = extract()
     body = "open FimVerif.Lock\n\n"
     for name, kind, text in methods:
         body += "def %s : Stmt :=\n  %s\n\n" % (lean_name(name), text)
@@ -416,7 +723,8 @@ def generate():
         return lean_list(["(%s, %s)" % (lean_str(n), lean_name(n)) for n, k, _ in methods if k == kind])
     body += "/-- public methods that take the lock -/\ndef locking : List (String × Stmt) := %s\n\n" % table("locking")
     body += "/-- public methods that never touch the lock -/\ndef lockfree : List (String × Stmt) := %s\n\n" % table("lockfree")
-    body += "/-- private helpers called with the lock held -/\ndef helpers : List (String × Stmt) := %s\n\n" % table("helper")
+    body += ("/-- private helpers (their bodies are also expanded into the skeletons of their callers) -/\n"
+             "def helpers : List (String × Stmt) := %s\n\n" % table("helper"))
     body += "def methods : List (String × Stmt) := locking ++ lockfree ++ helpers\n\n"
     body += ("/-- the shells' singleton creation: (store, guard tests `is None`, the store class defines __len__/__bool__) -/\n"
              "def singletons : List (String × Bool × Bool) := %s\n\n" % lean_list(
@@ -426,4 +734,4 @@ def generate():
              "def shellCtor : List (String × Stmt) := %s\n" % lean_list(
                  ["(%s, .prim (.ctor %s) false)" % (lean_str(fl), "true" if ranges[fl]["singleton"]["weak"] else "false") for fl in FILES]))
     changed = emit("LockCfg", body, header="import FimVerif.Model.Lock\n")
-    return {"methods": {n: k for n, k, _ in methods}, "lines": lines, "ranges": ranges, "spans": spans, "changed": changed}
+    return {"methods": {n: k for n, k, _ in methods}, "ranges": ranges, "spans": spans, "changed": changed}
